@@ -6,7 +6,7 @@ SPEC = hdr_spec(
     prefixes={"C09"}, profiles=[("mixed", 4), ("clean", 3), ("saveload", 3)],
     rule=GEN_RULE + "with consolidation, pruning (depths from MaxBranchDepth+2) and reload; dumps query HashHeight, CheckHeader, GetHeader, PreviousHash for EVERY header ever "
          "defined and Hash/Header/GetHeaders for every height, served from memory and from the 1000-header files; non-trivial = at least 8 submissions",
-    props_file="C09", extra=spine_scripts(['files', 'shrink']), thorough_n=5000,
+    props_file="C09", extra=spine_scripts(['files', 'shrink']), thorough_n=5000, more_props=("C09Range",),
     partial_note="exactness of the height maps (RepoWF: every hash held at exactly one place, maps = positions, Branches.Find answers with the owning branch, heights map sound) "
                  "is a theorem for every state reached by any history of submissions (C09_wf_submissions and its four corollaries); across "
                  "Consolidate/Truncate/Connect/Prune/Reload/Load it is checked by the correspondence and the monitor on every dump, not yet proved. "
@@ -19,5 +19,5 @@ META = dict(
          "parent height + 1. For every state reached by any history of submissions (C09_wf_submissions): the height reported for a hash is the position of that very header "
          "(C09_height_is_position), a hash is held at exactly one place (C09_position_unique), GetHeader returns the requested header and is available while tracked "
          "(C09_getHeader_tracked/_exact), PreviousHash is its true predecessor (C09_previousHash_exact), and a header accepted at some point is reported with the same height after any further submissions (C09_accepted_stays_known). The monitor recomputes true heights / ancestry from the header definitions and compares every lookup of every header at every dump. In the linear world (every fork-free history of any length with the automatic clean, Cleans, Saves, Loads of any depth) Hash(h) is the h-th accepted header at every height and HashHeight is exactly the position (C09_linear_world). From any loaded state (consistent image without repeated hashes) and over forest histories with maintenance, every header a tracked branch holds in memory is found at its owner, HashHeight is its position and no other tracked place holds its hash (C09_held_exact_after_load).",
-    note=COMMON_NOTE + "Partial: see evidence. Pruned side-branch headers keep a height in the long-lived map by design.",
+    note=COMMON_NOTE + "Range clause (Props/C09Range.lean), for EVERY repository state and storage image, start and maximum: GetHeaders(start, max) is position by position what the height query returns for start+i, from memory or from a main file (C09_range_eq_height_queries); it returns at most max headers and a shorter range ends directly below a height the height query refuses too - above the tip or missing from the file - so it cannot end at a file boundary the height query crosses (C09_range_complete, C09_range_serves_what_heights_serve); a failing range fails with the height query's error at the height where it happened (C09_range_error). The dumps ask for ranges across every 1000-header boundary and from the stored part into memory. " + "Partial: see evidence. Pruned side-branch headers keep a height in the long-lived map by design.",
 )
